@@ -17,7 +17,8 @@ from checks import c19_cache_equal as c19
 
 LEVEL = "exploration"
 RULE = ("random histories (length 3-8 of edit-model-file / edit-library-file / add-library-file / option-change / "
-        "version-change / transfer) over a model that uses a class from a library folder; every edit gets a logical "
+        "version-change / transfer) over a model (top-level or in a package, where a file added later can shadow the "
+        "library class) that uses a class from a library folder; every edit gets a logical "
         "mtime strictly later than the cache; distinct = digest of the operation history; non-trivial = the history "
         "contains a change (edit, option or version) between two transfer_model calls")
 ASSUMPTIONS = ["every edit is strictly later than the cache (equal modification times are never generated)",
